@@ -115,6 +115,13 @@ func (s *SyncStore) GetWalletStatus(tx mwdb.ReadTransaction, walletId string) (*
 	return &status, nil
 }
 
+// ExistsWalletStatus reports whether a status record is stored for the wallet.
+func (s *SyncStore) ExistsWalletStatus(tx mwdb.ReadTransaction, walletId string) (bool, error) {
+	nsWalletStatus := tx.FetchBucket(s.bucketMeta.nsWalletStatus)
+	v, err := existsValue(nsWalletStatus, []byte(walletId))
+	return v != nil, err
+}
+
 func (s *SyncStore) PutWalletStatus(tx mwdb.DBTransaction, ws *WalletStatus) error {
 	nsWalletStatus := tx.FetchBucket(s.bucketMeta.nsWalletStatus)
 	if len(ws.WalletID) != 42 {
